@@ -21,6 +21,12 @@
 (* the index of the nonce it was sealed under (1, 2, ...).  The wire is a sequence of frame indices   *)
 (* and the two special values BAD (a frame that opens under no nonce: bit flipped, forged, copied     *)
 (* from the other direction) and PART (the first bytes of a frame, then the end of the stream).       *)
+(* The carrier under the SecretConnection (TCP) is a byte stream: one Read of it may return any non-empty *)
+(* prefix of the ciphertext that is pending (segment boundaries, re-segmenting middleboxes).  seg is the  *)
+(* largest piece it currently hands over per Read (0: everything pending); Resegment changes it at any   *)
+(* time, before or after the handshake.  Both ends gather a sealed frame / an ephemeral key with         *)
+(* io.ReadFull, so no action's outcome mentions seg: fragmentation never changes the stream, and every    *)
+(* property below holds under it (seg is therefore left out of the VIEW).                                 *)
 (* Read errors are NOT latched by the code: the next Read tries the next frame under the unchanged    *)
 (* nonce.  This is modelled as it is; ending the connection is the consumer's job (MConn.tla).        *)
 EXTENDS Integers, Sequences, FiniteSets, TLC
@@ -33,7 +39,8 @@ CONSTANTS
   MaxWire,     \* frames on the wire at any time
   MaxMitm,     \* man-in-the-middle actions in one behaviour
   MaxSmall,    \* single Reads with a buffer smaller than DataMax (Drain is not limited)
-  AuthChoices  \* auth messages M may deliver (subset of AllAuth)
+  AuthChoices, \* auth messages M may deliver (subset of AllAuth)
+  Segs         \* carrier fragmentation classes: most bytes one Read of the underlying connection returns (0 = all)
 
 BAD  == -1
 PART == -2
@@ -49,9 +56,10 @@ VARIABLES
   intact,     \* ghost: every Read returned exactly the bytes dpos .. dpos+n-1
   mitm,       \* number of M's actions so far
   nsmall,     \* number of single small-buffer Reads so far
+  seg,        \* carrier: most bytes per underlying Read (0 = all pending); influences nothing
   res         \* output only: last action and its reply
 
-vars == <<phase, frames, wire, closed, recvNonce, buf, dpos, intact, mitm, nsmall, res>>
+vars == <<phase, frames, wire, closed, recvNonce, buf, dpos, intact, mitm, nsmall, seg, res>>
 view == <<phase, frames, wire, closed, recvNonce, buf, dpos, intact, mitm, nsmall>>
 
 Min(a, b) == IF a < b THEN a ELSE b
@@ -60,13 +68,13 @@ NoBuf == [off |-> 0, len |-> 0]
 
 Init ==
   /\ phase = "hs" /\ frames = <<>> /\ wire = <<>> /\ closed = FALSE /\ recvNonce = 1
-  /\ buf = NoBuf /\ dpos = 0 /\ intact = TRUE /\ mitm = 0 /\ nsmall = 0
+  /\ buf = NoBuf /\ dpos = 0 /\ intact = TRUE /\ mitm = 0 /\ nsmall = 0 /\ seg = 0
   /\ res = [op |-> "init"]
 
 \* behaviours that start right after an untouched handshake (used for simulation of the stream phase)
 InitStream ==
   /\ phase = "stream" /\ frames = <<>> /\ wire = <<>> /\ closed = FALSE /\ recvNonce = 1
-  /\ buf = NoBuf /\ dpos = 0 /\ intact = TRUE /\ mitm = 0 /\ nsmall = 0
+  /\ buf = NoBuf /\ dpos = 0 /\ intact = TRUE /\ mitm = 0 /\ nsmall = 0 /\ seg = 0
   /\ res = [op |-> "init"]
 
 -----------------------------------------------------------------------------------
@@ -122,7 +130,7 @@ Handshake(toA, toB, authA, authB, rA, rB) ==
   /\ phase' = IF toA = "eB" /\ toB = "eA" /\ authA = "relay" /\ authB = "relay" THEN "stream" ELSE "end"
   /\ res' = [op |-> "Handshake", got |-> got, auth |-> [s \in Side |-> IF s = "A" THEN authA ELSE authB],
              r |-> [s \in Side |-> IF s = "A" THEN rA ELSE rB]]
-  /\ UNCHANGED <<frames, wire, closed, recvNonce, buf, dpos, intact, mitm, nsmall>>
+  /\ UNCHANGED <<frames, wire, closed, recvNonce, buf, dpos, intact, mitm, nsmall, seg>>
 
 -----------------------------------------------------------------------------------
 (* Stream: writer A *)
@@ -138,7 +146,7 @@ Write(sz, k) ==
                                           len |-> IF i < k THEN DataMax ELSE sz - (k - 1) * DataMax]]
   /\ wire' = wire \o [i \in 1..k |-> Len(frames) + i]
   /\ res' = [op |-> "Write", sz |-> sz, n |-> sz]
-  /\ UNCHANGED <<phase, closed, recvNonce, buf, dpos, intact, mitm, nsmall>>
+  /\ UNCHANGED <<phase, closed, recvNonce, buf, dpos, intact, mitm, nsmall, seg>>
 
 -----------------------------------------------------------------------------------
 (* Stream: man in the middle, acting on sealed frames not yet handed to B *)
@@ -151,7 +159,7 @@ MitmStep(op) ==
   /\ phase = "stream" /\ ~closed /\ mitm < MaxMitm
   /\ mitm' = mitm + 1
   /\ res' = op
-  /\ UNCHANGED <<phase, frames, recvNonce, buf, dpos, intact, nsmall>>
+  /\ UNCHANGED <<phase, frames, recvNonce, buf, dpos, intact, nsmall, seg>>
 
 Flip(p) ==      \* one bit of frame p (tag or body) inverted
   /\ p \in 1..Len(wire) /\ Genuine(wire[p])
@@ -225,7 +233,7 @@ Read(b) ==
        /\ wire' = Tail(wire) /\ recvNonce' = recvNonce + 1
   /\ nsmall' = IF b < DataMax THEN nsmall + 1 ELSE nsmall
   /\ res' = [op |-> "Read", b |-> b, r |-> r, n |-> n]
-  /\ UNCHANGED <<phase, frames, closed, mitm>>
+  /\ UNCHANGED <<phase, frames, closed, mitm, seg>>
 
 \* a consumer loop: Reads with the same buffer until recvBuffer is empty
 Drain(b) ==
@@ -236,7 +244,14 @@ Drain(b) ==
   /\ dpos' = dpos + total
   /\ buf' = [off |-> buf.off + total, len |-> 0]
   /\ res' = [op |-> "Drain", b |-> b, calls |-> calls, n |-> total]
-  /\ UNCHANGED <<phase, frames, wire, closed, recvNonce, mitm, nsmall>>
+  /\ UNCHANGED <<phase, frames, wire, closed, recvNonce, mitm, nsmall, seg>>
+
+\* the carrier starts cutting the pending ciphertext differently (any time, handshake included)
+Resegment(k) ==
+  /\ phase \in {"hs", "stream"} /\ k \in Segs /\ k # seg
+  /\ seg' = k
+  /\ res' = [op |-> "Resegment", k |-> k]
+  /\ UNCHANGED <<phase, frames, wire, closed, recvNonce, buf, dpos, intact, mitm, nsmall>>
 
 Next ==
   \/ \E toA \in {"eB", "eM"}, toB \in {"eA", "eM"}, a1 \in AuthChoices, a2 \in AuthChoices,
@@ -247,6 +262,7 @@ Next ==
                                    \/ \E mid \in BOOLEAN : Truncate(p, mid)
   \/ \E k \in 1..MaxFrames : Replay(k)
   \/ \E b \in ReadBufs : Read(b) \/ Drain(b)
+  \/ \E k \in Segs : Resegment(k)
 
 Spec == Init /\ [][Next]_vars
 
@@ -281,6 +297,10 @@ ReadContract ==
 TamperDetected ==
   [][ (res'.op = "Read" /\ buf.len = 0 /\ wire # <<>> /\ Head(wire) # recvNonce)
         => (res'.r \in {"decrypt", "ueof"} /\ res'.n = 0 /\ dpos' = dpos /\ recvNonce' = recvNonce) ]_vars
+
+\* how the carrier cuts the ciphertext is invisible: a Resegment step changes nothing anybody can observe, and no
+\* other action reads seg (StreamIntegrity and NoLossWhenUntouched are checked with Resegment steps anywhere)
+CarrierTransparent == [][ res'.op = "Resegment" => view' = view ]_vars
 
 \* without a man in the middle every written byte is delivered: when nothing is left in flight the reader has all
 NoLossWhenUntouched == (mitm = 0 /\ wire = <<>> /\ buf.len = 0) => dpos = Written
